@@ -104,6 +104,47 @@ def checker (model : Bool) : Checker where
         else if model && x'.cap ≠ c then (some x', some s!"capacity want {x'.cap} got {c}")
         else (some x', none)
       | _, _, _, _, _ => (st, some s!"bad-op {op}")
+    | ["rangestop", ks] =>
+      -- Range whose callback fails when shown index k: the sequence is shown in order up to and
+      -- including position k, the callback's error comes back (`stop:`), nothing changes.  Both modes
+      -- demand that; the model (all four Range loops return at once) also demands that nothing is
+      -- shown after the failure (`more=0`).
+      match st, parseInt? ks, obsCap with
+      | some x, some k, some c =>
+        let vs := x.vals
+        let want :=
+          if 0 ≤ k && k < (vs.length : Int) then s!"stop:{renderSlice (vs.take (k.toNat + 1))}"
+          else s!"ok:{renderSlice vs}"
+        let got := resultTok obs
+        if want ≠ got then (st, some s!"Range with a failing callback: want {want} got {got}")
+        else if !same vs then (st, some s!"contents want {renderSlice vs} len {vs.length}")
+        else if model && x.cap ≠ c then (st, some s!"capacity want {x.cap} got {c}")
+        else if model && fieldNat obs "more" ≠ some 0 then (st, some "Range went on after the callback failed")
+        else (st, none)
+      | _, _, _ => (st, some s!"bad-op {op}")
+    | "rangedo" :: ks :: nestedWs =>
+      -- Range whose callback, when shown index k, makes one ordinary call (copy-on-write lists only):
+      -- Range shows the contents at invocation, the nested call is an ordinary step.
+      match st, ks.toNat?, parseOp nestedWs, obsCap with
+      | some x, some k, some o, some c =>
+        let shown := s!"ok:{renderSlice x.vals}"
+        let fires := decide (k < x.vals.length)
+        let (x', nestedWant) : AnyList × String :=
+          if !fires then (x, "-")
+          else if model then let (y, out) := x.step c o; (y, renderOut out)
+          else
+            let (s', out) := Spec.step x.vals o
+            (match x with
+              | .array a => .array ⟨⟨s', a.s.cap⟩⟩
+              | .cow a => .cow ⟨⟨s', a.s.cap⟩⟩
+              | .linked _ => .linked s', renderOut out)
+        let got := resultTok obs
+        if shown ≠ got then (some x', some s!"Range during a re-entrant call must show the snapshot: want {shown} got {got}")
+        else if field obs "nested" ≠ some nestedWant then (some x', some s!"nested call result want {nestedWant} got {field obs "nested"}")
+        else if !same x'.vals then (some x', some s!"contents want {renderSlice x'.vals} len {x'.vals.length}")
+        else if model && x'.cap ≠ c then (some x', some s!"capacity want {x'.cap} got {c}")
+        else (some x', none)
+      | _, _, _, _ => (st, some s!"bad-op {op}")
     | _ =>
       match st, parseOp ws with
       | none, _ => (none, some "no-container")
